@@ -140,6 +140,8 @@ FDIR = {"k": "dir"}
 FILES11 = {"k": "files11"}   # an array of eleven files (two-digit names under outs/)
 FMISSING = {"k": "fmissing"}  # names a file the stage never wrote
 FLINK = {"k": "flink"}
+FPLINK = {"k": "fplink"}     # a relative symbolic link to the first file named in the arguments (pass-through)
+FOUTSIDE = {"k": "foutside"} # a file the stage writes outside the pipestance directory
 FLINK2 = {"k": "flink2"}     # a chain of relative symbolic links through sub-directories
 FSM = {"k": "fsm"}           # a struct {string label; map m; file f}       # a symbolic link to a file of the stage         # a directory (type path) with two files in it  # a struct {file f; int n}
 CI = {"k": "ci"}
